@@ -325,8 +325,20 @@ def run(pid, tier, seed, replay=None):
         if not r:
             print("VIOLATION property=%s replay=%s" % (pid, replay)); return 1
         ans = drive([r[0]])[0]
-        print("replay:", ans, {k: v for k, v in r[1].items() if k != "inst"})
+        print("replay:", ans, {k: v for k, v in r[1].items() if k not in ("inst", "vpsc_line")})
         bad = "fail" in ans
+        f = fields(ans)
+        if bad and f["feasible"] == "ok" and f["cost"] == "ok" and f["optimal"] == "fail":
+            try:        # known finding F1?  (same signature test as the main run)
+                x2, cost2, unsat2, passes, stationary = float_continued(inst)
+                parts = r[0].split("|")
+                parts[3], parts[4], parts[7] = ",".join(fr(v) for v in x2), fr(cost2), ",".join(map(str, unsat2))
+                f2 = fields(drive(["|".join(parts)])[0])
+                if f2["optimal"] == "ok" and f2["feasible"] == "ok" and passes >= 1 and stationary:
+                    print("KNOWN-FINDING: property=C05 F1 (this input shows the recorded finding, not a new violation)")
+                    return 0
+            except (Timeout, RecursionError):
+                pass
         print("VIOLATION property=%s replay=%s" % (pid, replay) if bad else "replay: holds now")
         return 1 if bad else 0
     rep.model_fail = False
